@@ -79,6 +79,11 @@ class OMPTaskTrans(ParallelLoopTrans):
         :type options: dict of string:values or None
         '''
         # Disallow CodeBlocks inside the region
+        if options and options.get("collapse") is not None:
+            # Refuse here rather than in _directive(), which is only reached
+            # after apply() has started to modify the tree.
+            raise TransformationError("Collapse attribute should not be set "
+                                      "for OMPTaskTrans")
         if any(node.walk(CodeBlock)):
             raise GenerationError(
                 "OMPTaskTransformation cannot be applied to a region "
